@@ -9,7 +9,9 @@ import SuccinctlyVerif.Proof.Utf8BroadwordMain
 import SuccinctlyVerif.Proof.Utf8Prefix
 import SuccinctlyVerif.Proof.Utf8LineCol
 import SuccinctlyVerif.Proof.Utf8RoundTrip
+import SuccinctlyVerif.Proof.Utf8SpecLink
 import SuccinctlyVerif.Proof.Utf8Codec
+import SuccinctlyVerif.Generated.C13
 namespace SV.Props.C13
 open SV SV.Utf8
 
@@ -190,5 +192,78 @@ theorem encode_decode (bs : List Byte) (cp : BitVec 32) (n : Nat)
   encode_decode_all bs cp n h
 
 example : decodeCodePoint [0xF0#8, 0x9F#8, 0x98#8, 0x80#8, 0x41#8] = some (0x1F600#32, 4) := by decide
+
+/-- Model-to-spec link, encoder: `encode_code_point` yields exactly the spec encoding `Utf8.encode`
+(Table 3-6 bit distribution over `Nat`) of the scalar value, zero-padded to four bytes. -/
+theorem encode_eq_spec (cp : BitVec 32) (buf : List Byte) (len : Nat)
+    (h : encodeCodePoint cp = some (buf, len)) :
+    buf.take len = encode cp.toNat ∧ len = (encode cp.toNat).length :=
+  Utf8.encode_eq_spec cp buf len h
+
+example : encode 0x1F600 = [0xF0#8, 0x9F#8, 0x98#8, 0x80#8] := by decide
+
+/-- Model-to-spec link, decoder: `decode_code_point` is the spec decoder `Utf8.decodeFirst` (first
+well-formed Table 3-7 sequence and its scalar value) on every input, well-formed or not. -/
+theorem decode_eq_spec (bs : List Byte) :
+    (decodeCodePoint bs).map (fun p => (p.1.toNat, p.2)) = decodeFirst bs :=
+  Utf8.decode_eq_spec bs
+
+example : decodeFirst [0xED#8, 0xA0#8, 0x80#8] = none := by decide
+
+/-- The round trip as a statement about the *spec* codec: every scalar value decodes back from its
+encoding. -/
+theorem spec_decode_encode (n : Nat) (hs : isScalar n = true) :
+    decodeFirst (encode n) = some (n, (encode n).length) := by
+  have hn : n ≤ 0x10FFFF := by
+    simp only [isScalar, Bool.or_eq_true, Bool.and_eq_true, decide_eq_true_eq] at hs; omega
+  have htn : (BitVec.ofNat 32 n).toNat = n := by simp only [BitVec.toNat_ofNat]; omega
+  cases he : encodeCodePoint (BitVec.ofNat 32 n) with
+  | none => rw [encode_none_iff_not_scalar, htn, hs] at he; cases he
+  | some r =>
+    obtain ⟨buf, len⟩ := r
+    obtain ⟨h1, h2⟩ := encode_eq_spec _ buf len he
+    have h3 := (decode_encode _ buf len he).1
+    rw [htn] at h1 h2
+    rw [← decode_eq_spec, ← h1, h3, h1, ← h2]
+    simp [htn]
+
+/-- … and whatever the spec decoder accepts is a scalar value whose encoding is the decoded bytes. -/
+theorem spec_encode_decode (bs : List Byte) (n k : Nat) (h : decodeFirst bs = some (n, k)) :
+    isScalar n = true ∧ encode n = bs.take k := by
+  rw [← decode_eq_spec] at h
+  cases hd : decodeCodePoint bs with
+  | none => rw [hd] at h; cases h
+  | some r =>
+    obtain ⟨cp, k'⟩ := r
+    rw [hd] at h
+    simp only [Option.map_some, Option.some.injEq, Prod.mk.injEq] at h
+    obtain ⟨rfl, rfl⟩ := h
+    obtain ⟨buf, he, hb⟩ := encode_decode bs cp k' hd
+    refine ⟨?_, by rw [← (encode_eq_spec cp buf k' he).1, hb]⟩
+    cases hsc : isScalar cp.toNat with
+    | true => rfl
+    | false => rw [(encode_none_iff_not_scalar cp).2 hsc] at he; cases he
+
+/-- The `err` lane DAG of `check_block`, regenerated from `src/text/utf8/simd_x86.rs` on this run
+(Generated/C13.lean: chunk lane + the three shifted inputs), computes for every 4-tuple of bytes the
+lane value of the hand-written `checkBlockLane` that `avx2_accept_iff` is about; and the three shifted
+inputs are still defined in the source as `alignr(chunk, shifted, 15/14/13)` over
+`permute2x128(prev_input, chunk, 0x21)`, i.e. "the byte 1/2/3 positions back" (cross-lane, modelled by
+hand in `avx2Go`, not translated). -/
+theorem lanes_generated_eq :
+    (∀ c p1 p2 p3 : Byte, Gen.check_block_err_lane c p1 p2 p3 = checkBlockLane c p1 p2 p3) ∧
+    Gen.check_block_input_prev1_src = ["_mm256_alignr_epi8 ( chunk , shifted , 15 )"] ∧
+    Gen.check_block_input_prev2_src = ["_mm256_alignr_epi8 ( chunk , shifted , 14 )"] ∧
+    Gen.check_block_input_prev3_src = ["_mm256_alignr_epi8 ( chunk , shifted , 13 )"] := by
+  refine ⟨?_, by decide, by decide, by decide⟩
+  have hmax : ∀ a b : Byte, SV.Lane.maxu a b = maxu a b := by
+    intro a b; unfold SV.Lane.maxu maxu
+    split <;> split <;> first | rfl | bv_omega
+  intro c p1 p2 p3
+  simp only [Gen.check_block_err_lane, checkBlockLane, uge, ult, hmax]
+  rfl
+
+example : Gen.check_block_err_lane 0x80#8 0x41#8 0x41#8 0x41#8 ≠ 0#8 ∧
+    Gen.check_block_err_lane 0x80#8 0xC3#8 0x41#8 0x41#8 = 0#8 := by decide
 
 end SV.Props.C13
